@@ -379,6 +379,14 @@ func (p *prep) inst(f *Term, pos bool, cands map[string]map[*Term]bool) *Term {
 			return Ite(f.Args[0], p.inst(f.Args[1], pos, cands), p.inst(f.Args[2], pos, cands))
 		}
 		return f
+	case "=":
+		// P <=> Q with quantifiers inside (the defining equation of a revealed predicate): both
+		// directions, each with its own polarity
+		if len(f.Args) == 2 && f.Args[0].S.IsBool() {
+			a, b := f.Args[0], f.Args[1]
+			return p.inst(And(Implies(a, b), Implies(b, a)), pos, cands)
+		}
+		return f
 	case "forall", "exists":
 		universal := (f.Op == "forall") == pos
 		if !universal {
@@ -666,8 +674,12 @@ func (w *World) Prepare(o *Obligation, lemmaMax int) ([]*Term, *prep) {
 			}
 			break
 		}
-		// next generation of candidates: marked terms of instances of base formulas
+		// next generation of candidates: marked terms of instances of base formulas (in lemma proofs,
+		// which are small, also those of revealed definitions)
 		collectCands(nb, cands)
+		if o.Lemma {
+			collectCands(nd, cands)
+		}
 		addSkolems()
 	}
 	// dedupe
